@@ -86,7 +86,8 @@ class CUnit:
 
     def __init__(self, uid, props, fname, tu, filt=None, defines=(), requires=None, ensures=None,
                  cells=(), callees=None, options=None, subject=None, measured=None, arrays=None,
-                 param_assume=None, harness=None, post_hook=None):
+                 param_assume=None, harness=None, post_hook=None, structs=None):
+        self.structs = structs or {}
         self.uid = uid
         self.props = props            # {'C03': None, 'C36': ['ub']}
         self.fname = fname
@@ -162,8 +163,25 @@ class CUnit:
                            init=z3.Store(z3.K(z3.IntSort(), z3.IntVal(0)), 0, t))
                 args.append(Ptr(ty, nm, z3.IntVal(0)))
                 setattr(e, nm, t)
+            elif ty.is_ptr() and nm in self.structs:
+                # pointer to a struct whose fields the contract describes: name -> (ctype, count) | ('ptr', target buffer)
+                for fname, spec in self.structs[nm].items():
+                    oname = "%s.%s" % (nm, fname)
+                    if spec[0] == "ptr":
+                        o = ex.new_obj(st, oname, parse_type("char *"), z3.IntVal(1))
+                        o.target = spec[1]
+                        if spec[1] not in st.objs:
+                            ex.new_obj(st, spec[1], parse_type("char"), None)
+                    else:
+                        ety = parse_type(spec[0])
+                        ex.new_obj(st, oname, ety, z3.IntVal(spec[1]))
+                        k = z3.Int("k!" + oname)
+                        st.path.append(z3.ForAll([k], z3.And(z3.Select(st.mem[oname], k) >= ety.min,
+                                                             z3.Select(st.mem[oname], k) <= ety.max)))
+                args.append(Ptr(ty, nm, z3.IntVal(0)))
             else:
                 raise OutOfSubset("parameter %s of type %s is not described by the contract" % (nm, ty.name))
+        e.mem0 = dict(st.mem)
         rty = ex.return_type()
         e.T = TInfo(rty) if rty.kind == "int" else None
         e.types = {nm: TInfo(ty) for nm, ty in ptypes if ty.kind == "int"}
@@ -181,6 +199,7 @@ class CUnit:
             e2.result = v.t if isinstance(v, CV) else v
             if self.err_ghost:
                 e2.err = s.err
+            e2.mem = dict(s.mem)
             for c in self.cells:
                 setattr(e2, c + "_out", z3.Select(s.mem[c], 0))
             for label, f in self.ensures:
@@ -218,6 +237,8 @@ class CUnit:
             if ob.status == "failed" and any(whole for _, whole in kfids):
                 d["status"] = "known-finding"
             res.obligations.append(d)
+            if ob.kind == "subset":
+                continue            # modelling-limit obligations are never replayed / searched (see run.py)
             if d["status"] == "failed" and ob.kind != "measured":
                 rp = None
                 try:
